@@ -46,6 +46,7 @@ struct fs_counters
 
 void fs_reset ();
 void fs_set_tests_dir (std::string const &dir);
+void fs_set_fixtures_dir (std::string const &dir);
 void fs_add_override (std::string const &vpath, std::string const &backing,
 		      int open_errno,
 		      std::vector <std::pair <long, int>> const &patches = {});
